@@ -13,7 +13,8 @@ def run(check, tier):
                         "config.refresh", "config.canonical_name", "config.check_key_val",
                         "config.validate_device", "config.collect (empty directory)")
     check.bounds.update(operations="<= 2 (quick) / <= 3 (thorough) per history, 5 operation kinds",
-                        keys="16 keys: 4 top-level segments x (flat | 3 nested segments) with '-'/'_' twins",
+                        keys="16 keys: 4 top-level segments x (flat | 3 nested segments) with '-'/'_' twins; 7 keys up to three levels deep for the "
+                             "defaults/refresh aliasing harness; with-blocks writing two entries (and one of them twice via the keyword form)",
                         values="unbounded symbolic int", device_strings="symbolic str of len <= 2, menu of 9 malformed strings, int index in [-6, 12]")
     check.assumptions += [
         "no user yaml files (collect() reads an empty directory); single thread",
@@ -35,6 +36,11 @@ def run(check, tier):
                              key="defaults_refresh"))
     jobs.append(dict(fn="context_restore", timeout=t, key="context_manager_restore"))
     jobs.append(dict(fn="context_restore__reach", timeout=30))
+    for k1 in range(7):
+        jobs.append(dict(fn="deep_defaults", fixed=dict(k1=k1), timeout=t * 2, key="deep_defaults_refresh"))
+    for form in range(4):
+        for i1 in range(4):
+            jobs.append(dict(fn="context_multi", fixed=dict(form=form, i1=i1), timeout=t * 2, key="context_manager_multi_write"))
     jobs.append(dict(fn="bad_device", timeout=t, key="bad_device"))
     jobs.append(dict(fn="bad_device__reach", timeout=30))
     jobs.append(dict(fn="bad_device_str", timeout=t * 2, key="bad_device_str"))
